@@ -529,7 +529,12 @@ class Layouts:
         if isinstance(node, ast.Call):
             f = node.func
             if isinstance(f, ast.Attribute) and f.attr == "compile" and not node.args:
-                return self.eval_con(f.value, env, depth + 1)
+                r_ = self.eval_con(f.value, env, depth + 1)
+                try:
+                    unn(r_)._compiled = True  # the layout is the same; remembered for rules about compiled parsing
+                except Exception:
+                    pass
+                return r_
             if isinstance(f, ast.Name):
                 b = self.lookup(f.id, env)
                 if b is None:
